@@ -90,6 +90,10 @@ Ltac tie2_step :=
   | |- context [match (?a ?= ?b) with _ => _ end] => destruct (Z.compare_spec a b)
   | |- context [match ?o with Some _ => _ | None => _ end] => destruct o eqn:?; cbn [option_map obind]
   | |- context [option_map _ ?o] => destruct o eqn:?; cbn [option_map obind]
+  | |- context [fst ?p] => is_var p; destruct p; cbn [fst snd]
+  | |- context [snd ?p] => is_var p; destruct p; cbn [fst snd]
+  | |- context [match ?p with pair _ _ => _ end] => is_var p; destruct p
+  | |- context [match ?s with inl _ => _ | inr _ => _ end] => destruct s eqn:?
   end.
 Ltac tie2 := lit_divs; repeat tie2_step; cbn [bind negb andb orb]; try fin.
 
